@@ -829,6 +829,6 @@ func (e *commandExtractor) finalize(out *grammar.Grammar, g *lalr.Grammar) {
 	g.Rules = append(g.Rules, e.rules...)
 
 	for i := range e.midrule {
-		out.Parser.Rules = append(out.Parser.Rules, &grammar.Rule{Rule: e.rules[i], Value: e.midrule[i].Value})
+		out.Parser.Rules = append(out.Parser.Rules, &grammar.Rule{Rule: e.rules[i], Value: e.midrule[i].Value.Sub[0]})
 	}
 }
